@@ -229,6 +229,24 @@ def generate(ctx):
                 r['group'] = base_gid
             r['transform'] = transform
             recs.append(r)
+        # the same facts, created by the rules of other goals.  Only "producer stated first, one level, no disjunct" works
+        # in the planner: unification targets are fixed when the goal's flaw is expanded (known finding, no small repair)
+        if rng.random() < 0.6:
+            variants = [('producer-first', True, 1, False)]
+            variants.append(rng.choice([('target-created-later', False, 1, False), ('target-created-later', True, 2, False),
+                                        ('target-created-later', False, 2, False), ('target-created-later', True, 1, True),
+                                        ('target-created-later', False, 1, True)]))
+            for transform, pfirst, depth, indisj in variants:
+                lines, atoms, fs, gs = U.render_produced(d, pfirst, depth, indisj)
+                decls, implicit = U.reference(d, fs, gs)
+                p = {'decls': decls, 'stmts': list(d['cons']), 'enums': d['enums']}
+                r = rec_from_problem(p, 'unify:' + transform, 'unify', header=[], implicit=implicit)
+                pr = c02_gen.Printer({n: t for t, n in decls}, None)
+                r['text'] = "\n".join(lines + pr.stmts(d['cons']) + atoms) + "\n"
+                r['p'] = None
+                r['group'] = base_gid if transform == 'producer-first' else None
+                r['transform'] = transform
+                recs.append(r)
     for i in range(n_sched):
         s = S.any()
         p = {'decls': s['decls'], 'stmts': s['stmts']}
@@ -533,7 +551,7 @@ def run(ctx):
     pend_hits = {}
 
     def report(sig, payload):
-        if sig in pending:
+        if sig in pending and not ctx.known(sig):
             pend_hits[sig] = pend_hits.get(sig, 0) + 1
             if pend_hits[sig] == 1:
                 print("PENDING-FIX: property=C02 %s -- %s" % (sig, pending[sig]), flush=True)
